@@ -3,6 +3,7 @@
 package c20
 
 import (
+	"bufio"
 	"context"
 	"crypto/tls"
 	"errors"
@@ -34,6 +35,7 @@ type scenario struct {
 	Timeout   int        `json:"timeout_ms,omitempty"` // Dialer.Timeout, 0 = none
 	DialDelay int        `json:"netdial_delay_ms,omitempty"`
 	DialFail  bool       `json:"netdial_fails,omitempty"`  // NetDial reports "connection refused" after its delay
+	Entry     string     `json:"entry,omitempty"`          // "" = Dialer.Dial on a value | package = the dialer is assigned to ws.DefaultDialer and ws.Dial is called
 	Wrap      string     `json:"wrap,omitempty"`           // "" | tlsclient (wss + pass-through TLSClient) | wrapconn | both | tls-default (wss, crypto/tls client)
 	TLSNilCfg bool       `json:"tls_nil_config,omitempty"` // tls-default: Dialer.TLSConfig nil instead of {InsecureSkipVerify: true}
 	RBuf      int        `json:"rbuf,omitempty"`
@@ -89,6 +91,7 @@ type outcome struct {
 	Returned       bool
 	Err            error
 	ConnNil        bool
+	NetDials       int  // calls of the Dialer.NetDial stub
 	NotTop         bool // success, but the returned conn is not the outermost conn of the chain
 	BrNonNil       bool
 	TR             time.Duration // virtual time at which Dial returned
@@ -195,6 +198,7 @@ func bubble(sc *scenario, out *outcome) {
 		ReadBufferSize:  sc.RBuf,
 		WriteBufferSize: sc.WBuf,
 		NetDial: func(dctx context.Context, network, addr string) (net.Conn, error) {
+			out.NetDials++
 			if sc.DialDelay > 0 {
 				tm := time.NewTimer(ms(sc.DialDelay))
 				select {
@@ -220,11 +224,11 @@ func bubble(sc *scenario, out *outcome) {
 		},
 	}
 
-	url := "ws://peer.test/c20"
+	url := "ws://127.0.0.1:1/c20"
 	var top net.Conn // the outermost conn of the chain handed to the handshake, when the harness built it
 	switch sc.Wrap {
 	case "tlsclient", "both", "tls-default":
-		url = "wss://peer.test/c20"
+		url = "wss://127.0.0.1:1/c20"
 	}
 	if sc.Wrap == "tlsclient" || sc.Wrap == "both" {
 		d.TLSClient = func(c net.Conn, hostname string) net.Conn {
@@ -266,7 +270,22 @@ func bubble(sc *scenario, out *outcome) {
 	synctest.Wait()
 	n0 := runtime.NumGoroutine()
 
-	c, br, _, err := d.Dial(ctx, url)
+	var (
+		c   net.Conn
+		br  *bufio.Reader
+		err error
+	)
+	if sc.Entry == "package" {
+		// plain memory inside the bubble; the package's tests run one at a time
+		func() {
+			saved := ws.DefaultDialer
+			defer func() { ws.DefaultDialer = saved }()
+			ws.DefaultDialer = d
+			c, br, _, err = ws.Dial(ctx, url)
+		}()
+	} else {
+		c, br, _, err = d.Dial(ctx, url)
+	}
 
 	out.TR = time.Since(start)
 	out.Returned = true
@@ -424,6 +443,11 @@ func judge(sc *scenario, o *outcome) (v verdict) {
 	if !o.Returned {
 		v.Outcome = "never-returned"
 		v.Violation = fmt.Sprintf("Dial never returned, even after the watchdog cancelled the context and the peer went away at %v (synctest: %s)", watchdogAfter, o.Deadlock)
+		return
+	}
+	if o.NetDials == 0 {
+		v.Outcome = "netdial-bypassed"
+		v.Violation = fmt.Sprintf("Dial returned (err=%v) without ever calling the configured Dialer.NetDial: the dialer's configuration was ignored", o.Err)
 		return
 	}
 	switch {
